@@ -738,7 +738,7 @@ class MyPyAstVisitor:
             return attributes
 
         if hasattr(lvalue, "name"):
-            if self._is_attribute_already_defined(lvalue.name):
+            if self._is_attribute_already_defined(lvalue.name) or self._is_assignment_to_existing_attribute(lvalue):
                 return attributes
 
             attributes.append(
@@ -752,7 +752,9 @@ class MyPyAstVisitor:
                     # e.g. starred or subscripted items of a tuple assignment
                     continue
 
-                if self._is_attribute_already_defined(lvalue_.name):
+                if self._is_attribute_already_defined(lvalue_.name) or self._is_assignment_to_existing_attribute(
+                    lvalue_,
+                ):
                     continue
 
                 attributes.append(
@@ -760,6 +762,12 @@ class MyPyAstVisitor:
                 )
 
         return attributes
+
+    @staticmethod
+    def _is_assignment_to_existing_attribute(lvalue: mp_nodes.Expression) -> bool:
+        # "self.x = ..." does not define an attribute if x was already defined elsewhere, e.g. in a superclass.
+        # In that case mypy creates no variable node for the assignment target.
+        return isinstance(lvalue, mp_nodes.MemberExpr) and lvalue.node is None
 
     def _is_attribute_already_defined(self, value_name: str) -> bool:
         # If node is None, it's possible that the attribute was already defined once
